@@ -181,6 +181,9 @@ let () =
          bump "outside_quantifier";
          judge ~by_rid:true sx (dav_model t path ct bd dh) (fun _ -> true) obs)
     | [L [A "hier"; srv; hx; tg; rq]; obs] -> judge_hier sx srv hx tg rq obs
+    (* the text inside the stored objects and collection names does not enter the model: whatever
+       it is, the answer must be accounted for and its body must pass the strict reader *)
+    | [L [A "hiertext"; srv; _; hx; tg; rq]; obs] -> bump "odd_text"; judge_hier sx srv hx tg rq obs
     (* a history on one shared Handler: the last step, judged on its own inputs *)
     | [L (A "hseq" :: srv :: steps); obs] ->
       bump (Printf.sprintf "history_length_%d" (List.length steps));
